@@ -106,7 +106,10 @@ func (_this *Context) StreamStringData(data []byte) (firstRuneBytes []byte, next
 			_this.utf8RemainderBuffer = _this.utf8RemainderBuffer[:remainderLength+bytesCopied]
 			return
 		}
-		firstRuneBytes = _this.utf8RemainderBuffer
+		// The remainder buffer may be refilled below (when this data also ends
+		// inside a character), so the completed character must not alias it.
+		firstRuneBytes = _this.utf8FirstRuneBacking[:requiredByteCount]
+		copy(firstRuneBytes, _this.utf8RemainderBuffer)
 		_this.utf8RemainderBuffer = _this.utf8RemainderBuffer[:0]
 	}
 
